@@ -34,6 +34,16 @@ class Ctx:
     def closure_paths(self, clo, outer, args, stop_trait_methods=(), opaque_prefixes=(), inline=True):
         """paths of a closure body evaluated in the store of the path `outer` that built the closure value `clo`;
         `args` are the explicit (untupled) arguments"""
+        if clo[0] == 'fnitem':
+            # a function item passed where a closure is expected (`frame.map(Sample::to_sample)`)
+            body = self.facts.by_hash.get(clo[2])
+            eng = T.Engine(self.facts, T.Policy(stop_trait_methods=stop_trait_methods, no_inline_prefixes=opaque_prefixes, inline=inline))
+            if body is not None and 'blocks' in body and body.get('kind') != 'Closure':
+                return eng.summarize(body, list(args), store=dict(outer['store']), frame=1000)
+            # a trait method that stays generic: the application itself
+            return [{'conds': [], 'events': [], 'writes': {}, 'ret': ('app', clo[1], tuple(args), tuple(clo[3])), 'end': 'return', 'store': dict(outer['store'])}]
+        if not (clo[0] == 'agg' and len(clo) == 3 and clo[1] and clo[1][0] == 'closure'):
+            return None
         body = self.facts.by_hash.get(clo[1][2])
         if body is None:
             return None
@@ -197,7 +207,7 @@ def normal_paths(paths):
 
 
 def returning(paths):
-    return [p for p in paths if p['end'] == 'return']
+    return [p for p in (paths or []) if p['end'] == 'return']
 
 
 def heap_writes(path, ignore_mut=True):
